@@ -222,6 +222,9 @@ class PEP8Normalizer(ErrorFinder):
 
         if typ in _IMPORT_TYPES:
             simple_stmt = node.parent
+            if simple_stmt.type != 'simple_stmt':
+                # The last statement of a file may lack the newline.
+                simple_stmt = node
             module = simple_stmt.parent
             if module.type == 'file_input':
                 index = module.children.index(simple_stmt)
